@@ -304,7 +304,10 @@ def generate(info, combo, mapmode, sites, outdir, workdir):
         env["VERIF_SITES"] = "@" + sf
     else:
         env.pop("VERIF_SITES", None)
-    p = subprocess.run(cmd, cwd=workdir, env=env, stdout=subprocess.PIPE, stderr=subprocess.PIPE, text=True, timeout=600)
+    try:
+        p = subprocess.run(cmd, cwd=workdir, env=env, stdout=subprocess.PIPE, stderr=subprocess.PIPE, text=True, timeout=900)
+    except subprocess.TimeoutExpired:
+        return -9, {}, {}, "generator process did not finish within 900 s"
     digests = {}
     for root, _, fs in os.walk(outdir):
         for f in fs:
@@ -368,9 +371,12 @@ def hgen_run(info, combo, seq, modes, outdir, workdir):
     for k in ("VERIF_MAP", "VERIF_SITES", "VERIF_STATS"):
         env.pop(k, None)
     env["TMPDIR"] = workdir
-    p = subprocess.run([info["hgen"], "-tool", tool2, "-compress=%s" % ("true" if compress else "false"), "-path", ",".join(paths),
-                        "-seq", ",".join(seq), "-modes", ",".join(modes), "-out", outdir] + files,
-                       cwd=workdir, env=env, stdout=subprocess.PIPE, stderr=subprocess.PIPE, text=True, timeout=1800)
+    try:
+        p = subprocess.run([info["hgen"], "-tool", tool2, "-compress=%s" % ("true" if compress else "false"), "-path", ",".join(paths),
+                            "-seq", ",".join(seq), "-modes", ",".join(modes), "-out", outdir] + files,
+                           cwd=workdir, env=env, stdout=subprocess.PIPE, stderr=subprocess.PIPE, text=True, timeout=1800)
+    except subprocess.TimeoutExpired:
+        return None
     try:
         return json.loads(p.stdout.strip().splitlines()[-1])["gens"]
     except (ValueError, IndexError, KeyError):
@@ -442,7 +448,14 @@ def inproc_leg(info, combo, tier, r, workdir, res):
             1 for i in range(1, len(seq)) if any(v != seq[i] for v in seq[:i]))
         if bad is None:
             continue
-        idx, detail = bad
+        # the sequence is seeded: the same sequence must misbehave again before anything is concluded
+        bad2 = hgen_check_seq(info, combo, seq, modes, refs, workdir)
+        res["runs"] += len(seq)
+        if bad2 is None:
+            res.setdefault("unreproducible", []).append({"combo": list(combo), "map": "inproc", "seq": seq, "modes": modes, "detail": bad[1][:300]})
+            log("C25: an in-process deviation did not repeat when the same sequence was re-executed (%s %s)" % (combo, seq))
+            continue
+        idx, detail = bad2
         if idx < 0:
             res["skipped_inproc"] = detail
             return
@@ -504,6 +517,18 @@ def run_combo(args):
                 res["orders"].append({"map": mode, "sites": sites, "deviating_sites": len(st2.get("deviated") or {}), "map_events": st2.get("map_events")})
             if rc == 0 and got == ref:
                 continue
+            if mode != "pass" or rc != 0:
+                # A generation is a function of its inputs and of the map-order plan, both fixed here: the same plan is
+                # executed once more before anything is concluded. A deviation that does not come back was caused by the
+                # environment of that one process (killed, out of memory, a full disk under a loaded machine), not by the
+                # generator; it is recorded in the evidence and not reported.
+                rc2, got2, _, err2 = generate(info, combo, mode, sites, out, workdir)
+                res["runs"] += 1
+                if rc2 == 0 and got2 == ref:
+                    res.setdefault("unreproducible", []).append({"combo": list(combo), "map": mode, "sites": sites, "rc": rc, "stderr": err[-300:]})
+                    log("C25: a deviating generation did not repeat when re-executed with the same plan (rc=%s, %s %s %s): %s" % (rc, combo, mode, sites, err[-200:].strip()))
+                    continue
+                rc, got, err = rc2, got2, err2
             f, detail = first_diff(refdir, out, ref, got)
             v = {"combo": list(combo), "map": mode, "sites": sites, "rc": rc, "file": f, "detail": detail, "stderr": err[-400:] if rc != 0 else ""}
             if mode != "pass":
@@ -544,6 +569,7 @@ def check(pid, tier, seed):
     runs = 0
     skipped = []
     viols = []
+    unrepro = []
     distinct = set()
     samples = []
     for r in results:
@@ -556,6 +582,7 @@ def check(pid, tier, seed):
         for k, v in r["fired"].items():
             fired[k] = fired.get(k, 0) + v
         viols += r["violations"]
+        unrepro += r.get("unreproducible", [])
         if r["sites_multi"]:
             distinct.add(tuple(r["combo"]))
         if len(samples) < 4:
@@ -590,7 +617,9 @@ def check(pid, tier, seed):
         "distinct_nontrivial": len(distinct),
         "rule": "one evaluation = one run of the real generator / proto_generator binary in a fresh OS process on one (schema set, tool, flag set) combination under one "
                 "map-iteration schedule (canonical reference, all sites reversed, seeded permutations, the runtime's own order twice, and every chosen site reversed alone); "
-                "all output files are compared byte for byte with the reference; distinct non-trivial = combinations in which at least one map-iteration site saw two or more keys",
+                "all output files are compared byte for byte with the reference; in addition the generators run as libraries in seeded sequences of 2-4 generations inside one process "
+                "(configuration variants and map orders mixed; each generation counts as one evaluation) and every generation is compared with the output of the same "
+                "configuration as the only generation of a fresh process; distinct non-trivial = combinations in which at least one map-iteration site saw two or more keys",
         "samples": samples or [{"note": "no combination produced output"}],
         "simulated_runs": runs,
         "runs_per_hour": int(runs / wall * 3600) if wall > 0 else 0,
@@ -600,9 +629,10 @@ def check(pid, tier, seed):
         "map_iteration_sites": {"instrumented_in_generator_packages": len(gen_sites), "instrumented_total": len(allsites), "visited": len(visited), "seen_with_two_or_more_keys": len(seen_multi)},
         "coverage_gaps": {"sites_never_seen_with_two_or_more_keys": never_multi[:60], "count": len(never_multi)},
         "components": {"real_code": ["generator and proto_generator binaries built from the instrumented copy of /repo's working tree", "ygen, gogen, protogen, ypathgen, genutil, ygot, util", "goyang (vendored copy, instrumented)", "go/format, text/template, protobuf"],
-                       "simulated_or_stubbed": ["map iteration order at every `range`-over-map / reflect MapKeys / MapRange site (simrt seam)", "process boundary: every generation is a fresh process"]},
+                       "simulated_or_stubbed": ["map iteration order at every `range`-over-map / reflect MapKeys / MapRange site (simrt seam)", "process boundary: every generation is a fresh process, or a chosen position in a seeded sequence of generations inside one process (hgen driver)"]},
         "known_findings_hit": [k["signature"] for k, _, _ in known],
         "exhaustive_single_site_sweep": tier == "thorough",
+        "deviations_not_repeated_on_reexecution": {"count": len(unrepro), "first": unrepro[:5]},
     }
     checks.write_evidence(pid, tier, seed, cov, [
         "sampling of permutations (plus, in the thorough tier, the exhaustive single-site reversal sweep); nondeterminism that is neither map order nor process state has no source in these packages (no goroutines, no clock)",
